@@ -231,7 +231,11 @@ def split_delay_tags(series, hed_schema, onsets):
             if delay is None:
                 # Unconvertible delay (bad unit or value): leave the group in place so validation reports it.
                 continue
-            onset_mod = delay + float(onsets[i])
+            try:
+                onset_mod = delay + float(onsets[i])
+            except (TypeError, ValueError):
+                # The row has no usable onset (n/a), so the delayed group has no time either: leave it in place.
+                continue
             to_remove.append(group)
             insert_index = split_df['original_index'].index.max() + 1
             split_df.loc[insert_index] = {'HED': str(group), 'onset': onset_mod, 'original_index': i}
